@@ -27,76 +27,124 @@ def render(tokens, rng=None):
 
 
 # ------------------------------------------------------------------ grammar-directed generator
+# Programs are generated as token lists and rendered with context-aware trivia between EVERY
+# pair of adjacent tokens (inside brackets: newlines, indentation, comments, continuations).
+IN_TRIVIA = [' ', ' ', '', '  ', '\t', '\n', '\n    ', ' # c\n  ', ' \\\n  ', '\n\n', ' #\n', '\n# c\n']
+OUT_TRIVIA = [' ', ' ', ' ', '', '  ', '\t', ' \\\n ', ' \\ # c\n']
+
+
+def wordlike(t):
+    return t[:1].isalnum() or t[:1] in "_'" or t[-1:].isalnum() or t[-1:] == "'"
+
+
+def render_tokens(rng, toks, rich=0.35):
+    out, depth = [], 0
+    for i, t in enumerate(toks):
+        if i:
+            prev = toks[i - 1]
+            if t == '\n' or prev == '\n':
+                tr = rng.choice(['', '', ' ', '  ', ' # c']) if t == '\n' else rng.choice(['', '', '  ', '    ', '\t'])
+            else:
+                pool = IN_TRIVIA if depth > 0 else OUT_TRIVIA
+                tr = rng.choice(pool) if rng.random() < rich else rng.choice([' ', ' ', ''])
+                if tr == '' and wordlike(prev) and wordlike(t) and not (prev in '([{' or t in ')]},:.'):
+                    tr = ' '
+                if tr == '' and (prev + t in ('==', '+=', '!=', '<=', '>=') or (prev == '-' and t == '-')):
+                    tr = ' '
+            out.append(tr)
+        out.append(t)
+        if t in '([{' and len(t) == 1:
+            depth += 1
+        elif t in ')]}' and len(t) == 1:
+            depth = max(0, depth - 1)
+    return ''.join(out)
+
+
+ATOMS = ['a', 'b', 'foo', '1', '42', "'s'", "'x y'", 'true', 'false', "'''ml'''", "f'@a@'", '0x10', "'''m\nl'''", "f'''a\nb'''"]
+
+
 def g_expr(rng, d=0):
     k = rng.random()
     if d > 3 or k < 0.25:
-        return rng.choice(['a', 'b', 'foo', '1', '42', "'s'", "'x y'", 'true', 'false', "'''ml'''", "f'@a@'", '0x10'])
+        return [rng.choice(ATOMS)]
     if k < 0.35:
-        return '(' + g_expr(rng, d + 1) + ')'
+        return ['('] + g_expr(rng, d + 1) + [')']
     if k < 0.45:
-        return '[' + g_args(rng, d + 1, kw=False) + ']'
+        return ['['] + g_args(rng, d + 1, kw=False) + [']']
     if k < 0.5:
-        return '{' + ', '.join("%s : %s" % (g_expr(rng, d + 2), g_expr(rng, d + 2)) for _ in range(rng.randint(0, 2))) + '}'
+        out = ['{']
+        for i in range(rng.randint(0, 2)):
+            if i:
+                out.append(',')
+            out += g_expr(rng, d + 2) + [':'] + g_expr(rng, d + 2)
+        return out + ['}']
     if k < 0.6:
-        return rng.choice(['f', 'g', 'files']) + '(' + g_args(rng, d + 1) + ')'
+        return [rng.choice(['f', 'g', 'files']), '('] + g_args(rng, d + 1) + [')']
     if k < 0.68:
-        return g_expr(rng, d + 2) + '.' + rng.choice(['m', 'get']) + '(' + g_args(rng, d + 1) + ')'
+        return g_expr(rng, d + 2) + ['.', rng.choice(['m', 'get']), '('] + g_args(rng, d + 1) + [')']
     if k < 0.73:
-        return g_expr(rng, d + 2) + '[' + g_expr(rng, d + 1) + ']'
+        return g_expr(rng, d + 2) + ['['] + g_expr(rng, d + 1) + [']']
     if k < 0.8:
-        return rng.choice(['not ', '-']) + g_expr(rng, d + 1)
+        return [rng.choice(['not', '-'])] + g_expr(rng, d + 1)
     if k < 0.95:
-        op = rng.choice(['+', '-', '*', '/', '%', '==', '!=', '<', '<=', '>', '>=', 'in', 'not in', 'and', 'or'])
-        return g_expr(rng, d + 1) + ' ' + op + ' ' + g_expr(rng, d + 1)
-    return g_expr(rng, d + 1) + ' ? ' + g_expr(rng, d + 2) + ' : ' + g_expr(rng, d + 2)
+        op = rng.choice([['+'], ['-'], ['*'], ['/'], ['%'], ['=='], ['!='], ['<'], ['<='], ['>'], ['>='], ['in'],
+                         ['not', 'in'], ['not', 'in'], ['and'], ['or']])
+        return g_expr(rng, d + 1) + op + g_expr(rng, d + 1)
+    return g_expr(rng, d + 1) + ['?'] + g_expr(rng, d + 2) + [':'] + g_expr(rng, d + 2)
 
 
 def g_args(rng, d, kw=True):
     n = rng.randint(0, 3)
     items = [g_expr(rng, d + 1) for _ in range(n)]
     if kw and rng.random() < 0.4:
-        items += ['%s : %s' % (rng.choice(['k', 'kw', 'name']), g_expr(rng, d + 1)) for _ in range(rng.randint(1, 2))]
+        items += [[rng.choice(['k', 'kw', 'name']), ':'] + g_expr(rng, d + 1) for _ in range(rng.randint(1, 2))]
     if kw and rng.random() < 0.05:
         rng.shuffle(items)          # keyword before positional: accepted by the parser
-    s = (',\n  ' if rng.random() < 0.15 else ', ').join(items)
+    out = []
+    for i, it in enumerate(items):
+        if i:
+            out.append(',')
+        out += it
     if items and rng.random() < 0.15:
-        s += ','
-    return s
+        out.append(',')
+    return out
 
 
 def g_stmt(rng, d=0):
     k = rng.random()
-    ind = '  ' * d
     if k < 0.4 or d > 2:
-        return ind + rng.choice(['x', 'y', 'var']) + rng.choice([' = ', ' += ', '=']) + g_expr(rng) + g_trail(rng)
+        return [rng.choice(['x', 'y', 'var']), rng.choice(['=', '+='])] + g_expr(rng)
     if k < 0.6:
-        return ind + g_expr(rng) + g_trail(rng)
+        return g_expr(rng)
     if k < 0.8:
-        s = ind + 'if ' + g_expr(rng, 2) + g_trail(rng) + '\n' + g_block(rng, d + 1)
+        s = ['if'] + g_expr(rng, 2) + ['\n'] + g_block(rng, d + 1)
         for _ in range(rng.randint(0, 2)):
-            s += ind + 'elif ' + g_expr(rng, 2) + '\n' + g_block(rng, d + 1)
+            s += ['elif'] + g_expr(rng, 2) + ['\n'] + g_block(rng, d + 1)
         if rng.random() < 0.5:
-            s += ind + 'else\n' + g_block(rng, d + 1)
-        return s + ind + 'endif'
+            s += ['else', '\n'] + g_block(rng, d + 1)
+        return s + ['endif']
     if k < 0.92:
-        v = rng.choice(['i', 'k, v'])
-        return ind + 'foreach ' + v + ' : ' + g_expr(rng, 2) + '\n' + g_block(rng, d + 1) + ind + 'endforeach'
-    return ind + rng.choice(['continue', 'break', '', '# only a comment'])
-
-
-def g_trail(rng):
-    return rng.choice(['', '', '', ' # trailing', '  '])
+        v = rng.choice([['i'], ['k', ',', 'v']])
+        return ['foreach'] + v + [':'] + g_expr(rng, 2) + ['\n'] + g_block(rng, d + 1) + ['endforeach']
+    return rng.choice([['continue'], ['break'], []])
 
 
 def g_block(rng, d):
-    return ''.join(g_stmt(rng, d) + '\n' for _ in range(rng.randint(0, 3)))
+    out = []
+    for _ in range(rng.randint(0, 3)):
+        out += g_stmt(rng, d) + ['\n']
+    return out
 
 
 def g_program(rng):
-    s = ''.join(g_stmt(rng) + rng.choice(['\n', '\n', '\n\n']) for _ in range(rng.randint(1, 5)))
-    if rng.random() < 0.2:
-        s = s.rstrip('\n')
-    return s
+    toks = []
+    for _ in range(rng.randint(1, 5)):
+        toks += g_stmt(rng) + ['\n']
+        if rng.random() < 0.2:
+            toks.append('\n')
+    if rng.random() < 0.2 and toks:
+        toks.pop()
+    return render_tokens(rng, toks, rich=rng.choice([0.0, 0.2, 0.5, 0.9]))
 
 
 def mutate(rng, s):
@@ -135,7 +183,7 @@ def corpus_files():
     return fs
 
 
-CORPUS = ["x = a not\n", "foo(a not, b)\n", "if a not\nendif\n", "a not # c\n in b", "f(a: 1, b)\n", "f(a: 1, b, c: 2)\n",
+CORPUS = ["(a not\n in b)", "(a not # c\n  in b)", "x = a not \\\n   in b", "[a not\n\n in\n b]", "x = a not\n", "foo(a not, b)\n", "if a not\nendif\n", "a not # c\n in b", "f(a: 1, b)\n", "f(a: 1, b, c: 2)\n",
           "x = 'a\nb'\ny = [1]\n", "foo('a\nb', [1])\n", "x = " + "1" * 4301 + "\n", "x = '\\U00110000'\n",
           "x = '\\\\U00110000'\n", "a.b\n", "x = 1.5\n", "\ufeffx=1\n", "x = [1,\n 2]\n", "foreach a,b : c\nendforeach",
           "x = f'''a\nb'''\ny=1", "not not a", "- - a", "a ? b : c ? d : e", "(a ? b : c) ? d : e", "a ? (b ? c : d) : e",
@@ -218,6 +266,15 @@ def run(ctx):
         for t in itertools.product(alpha, repeat=n):
             add(render(t), 'exhaustive')
     ctx.extra['exhaustive_bound'] = {'alphabet': len(alpha), 'max_len': L}
+    # every ordered pair of tokens with every kind of trivia between them, inside brackets and outside
+    PT = [t for t in TOKS if t != '\n']
+    for t1 in PT:
+        for t2 in PT:
+            for tr in IN_TRIVIA[3:]:
+                add('(a ' + t1 + tr + t2 + ' b)', 'pair-trivia')
+            if thorough or rng.random() < 0.3:
+                for tr in OUT_TRIVIA[3:]:
+                    add('x = a ' + t1 + tr + t2 + ' b', 'pair-trivia')
     # longer sampled sequences / soups
     for _ in range(60000 if thorough else 6000):
         n = rng.randint(4, 9)
